@@ -483,3 +483,27 @@ M.contract(P + ':bad_map_comp_changes_keys', params=dict(d=MapOf(Str, Int)), cov
            ensures={'never-false': lambda result: True}, raises_only=())
 EXPECTED_REFUTED.add(P + ':bad_map_len : ensures[one-more]')
 EXPECTED_UNDECIDED.append(P + ':bad_map_comp_changes_keys: unsupported: dict comprehension over a symbolic map that')
+
+
+# ---- items_of(map(f, xs)) over a symbolic sequence: the element-wise image, when f is pure and total (F15)
+from contracts.common import items_of
+
+def ok_lazy_map(xs):
+    return map(_twice, xs)
+
+
+def bad_lazy_map(xs):
+    return map(_twice, xs)
+
+
+def _twice(x):
+    return 2 * x
+
+
+M.contract(P + ':ok_lazy_map', params=dict(xs=ListOf(Int)),
+           ensures={'image': lambda xs, result: len(items_of(result)) == len(xs)
+                    and forall_range(0, len(xs), lambda k: items_of(result)[k] == 2 * xs[k])}, raises_only=())
+M.contract(P + ':bad_lazy_map', params=dict(xs=ListOf(Int)),
+           ensures={'image+1': lambda xs, result:
+           forall_range(0, len(xs), lambda k: items_of(result)[k] == 2 * xs[k] + 1)}, raises_only=())
+EXPECTED_REFUTED.add(P + ':bad_lazy_map : ensures[image+1]')
